@@ -9,6 +9,8 @@ func VFRun(env *vfc.Env) {
 	switch env.Mode {
 	case "db.c01":
 		vfHistories(env, "c01", nil)
+	case "db.c13":
+		vfHistories(env, "c13", nil)
 	case "db.gc":
 		vfHistories(env, "c03", nil)
 	case "db.c02sched":
